@@ -249,3 +249,102 @@ pub fn twin_words(k: usize, f: &mut dyn FnMut(G)) {
         }
     });
 }
+
+/// Nested juxtaposition inside a word under every operator (`--m=(fast || slow(er|est))`): the
+/// parser flattens the inner word into a sequence; also reached through definitions, where the
+/// validator collapses it.  The AST keeps the nested `Word` so that the printer writes it
+/// juxtaposed; `normalize_words` gives the tree the parser must produce.
+pub fn nested_words(f: &mut dyn FnMut(G)) {
+    let lit = E::lit;
+    let inner: Vec<E> = vec![
+        E::Word(vec![lit("slow"), E::Alt(vec![lit("er"), lit("est")])]),
+        E::Word(vec![E::Opt(Box::new(lit("un"))), lit("do")]),
+        E::Word(vec![lit("k"), E::cmd("c1")]),
+        E::Word(vec![E::Alt(vec![lit("a"), lit("b")]), E::r("U")]),
+    ];
+    for j in &inner {
+        let ops: Vec<E> = vec![
+            E::Fb(vec![lit("fast"), j.clone()]),
+            E::Fb(vec![j.clone(), lit("fast")]),
+            E::Fb(vec![lit("fast"), j.clone(), lit("last")]),
+            E::Alt(vec![lit("fast"), j.clone()]),
+            E::Opt(Box::new(j.clone())),
+            E::Many(Box::new(E::Alt(vec![lit(","), j.clone()]))),
+            E::Descr(Box::new(E::Alt(vec![j.clone(), lit("plain")])), "dd".into()),
+            E::Fb(vec![E::Alt(vec![lit("x"), j.clone()]), E::Opt(Box::new(j.clone()))]),
+            E::Alt(vec![E::Fb(vec![lit("l0"), lit("l1")]), E::Fb(vec![lit("m0"), j.clone()])]),
+        ];
+        for op in ops {
+            f(call(E::Word(vec![lit("--mode="), op.clone()])));
+            f(call(E::Seq(vec![E::Word(vec![lit("--mode="), op.clone()]), lit("t")])));
+            // through a definition (collapse_subwords) and through two
+            f(G { stmts: vec![Stmt::Call { name: CMD.into(), expr: E::Word(vec![lit("--mode="), E::r("M")]) }, def("M", op.clone())] });
+            f(G {
+                stmts: vec![
+                    Stmt::Call { name: CMD.into(), expr: E::Fb(vec![lit("first"), E::Word(vec![lit("--mode="), E::r("M")])]) },
+                    def("M", E::Alt(vec![lit("none"), E::r("N")])),
+                    def("N", op.clone()),
+                ],
+            });
+        }
+    }
+}
+
+/// the tree the parser produces for an AST with nested words: inside a word every nested
+/// `Word` is a plain sequence
+pub fn normalize_words(e: &E, in_word: bool) -> E {
+    match e {
+        E::Lit(..) | E::Ref(_) | E::Cmd(_) => e.clone(),
+        E::Word(cs) => {
+            let v: Vec<E> = cs.iter().map(|c| normalize_words(c, true)).collect();
+            if in_word { E::Seq(v) } else { E::Word(v) }
+        }
+        E::Seq(cs) => E::Seq(cs.iter().map(|c| normalize_words(c, in_word)).collect()),
+        E::Alt(cs) => E::Alt(cs.iter().map(|c| normalize_words(c, in_word)).collect()),
+        E::Fb(cs) => E::Fb(cs.iter().map(|c| normalize_words(c, in_word)).collect()),
+        E::Opt(c) => E::Opt(Box::new(normalize_words(c, in_word))),
+        E::Many(c) => E::Many(Box::new(normalize_words(c, in_word))),
+        E::Descr(c, d) => E::Descr(Box::new(normalize_words(c, in_word)), d.clone()),
+    }
+}
+
+/// Repeated loops of optional segments, `cmd (S1 S2 .. Sn)...;` with every Si from a menu of
+/// literals, optional literals, optional runs and optional run-or-literal choices over
+/// `letters`.  The automata have many nearly-equivalent states on a cycle, the shape that makes
+/// partition refinement split a block by itself while other blocks still wait.
+pub fn loop_segments(letters: &[&str], maxlen: usize, f: &mut dyn FnMut(G)) {
+    let lit = E::lit;
+    let mut menu: Vec<E> = vec![];
+    for x in letters {
+        menu.push(lit(x));
+    }
+    for x in letters {
+        menu.push(E::Opt(Box::new(lit(x))));
+    }
+    for x in letters {
+        menu.push(E::Opt(Box::new(E::Seq(vec![lit(x), lit(x)]))));
+        menu.push(E::Opt(Box::new(E::Seq(vec![lit(x), lit(x), lit(x)]))));
+    }
+    for x in letters {
+        for y in letters {
+            if x != y {
+                menu.push(E::Opt(Box::new(E::Alt(vec![E::Seq(vec![lit(x), lit(x), lit(x)]), lit(y)]))));
+                menu.push(E::Opt(Box::new(E::Alt(vec![E::Seq(vec![lit(x), lit(x)]), lit(y)]))));
+            }
+        }
+    }
+    fn rec(menu: &[E], cur: &mut Vec<E>, left: usize, f: &mut dyn FnMut(G)) {
+        if cur.len() >= 2 {
+            f(call(E::Many(Box::new(E::Seq(cur.clone())))));
+        }
+        if left == 0 {
+            return;
+        }
+        for m in menu {
+            cur.push(m.clone());
+            rec(menu, cur, left - 1, f);
+            cur.pop();
+        }
+    }
+    rec(&menu, &mut vec![], maxlen, f);
+}
